@@ -52,6 +52,10 @@ CLAIMS = {
             "are used before anything mutates the probe sets, StripedSet::internal_resize moves every element of every old bucket once into "
             "bucket(hash(element)) of the new table and frees the old table afterwards, every bucket adapter/policy inserts the moved item "
             "exactly once. SplitList/Feldman growth is not covered here.", PATHS, "DESIGN.md §4 C17"),
+    "C18": ("other", "Only the size()/empty() clause: in the ordered containers the item counter changes at most once per operation and only on "
+            "success paths, every inserting/removing public member reaches a counter change of the right direction, size() reports the counter. "
+            "Sortedness, exactly-once traversal, tree order, AVL balance, skip-list level property are runtime heap shape: NOT decided.",
+            "static analysis: path tables (value numbering) + call-graph reachability of counter effects", "DESIGN.md §4 C18"),
     "C20": ("other", "Path-effect consistency over every container member that touches the item counter: counter changed at most once and only on "
             "success paths, success/new-item paths change it (elimination paths exempt), update functor flag bNew agrees with the returned pair "
             "and with counting, no callback or counter change on failing paths. Agreement with std:: reference models over call sequences is "
